@@ -315,12 +315,24 @@ const repoMod = "github.com/istio-ecosystem/authservice/"
 // primitive (map, slice, string, memmove helpers) called on behalf of frame 1.
 func accessSite(stack []string) string {
 	for i, fn := range stack {
-		if strings.HasPrefix(fn, "runtime.") && i+1 < len(stack) {
+		if i+1 < len(stack) && isDataHelper(fn) {
 			continue
 		}
 		return fn
 	}
 	return ""
+}
+
+// isDataHelper: functions that read or write memory their CALLER handed them and that keep no state of their own
+// (no pools, no globals): the runtime's map/slice/string primitives and the pure helper packages of the standard
+// library. An access made inside one of them is the caller's access.
+func isDataHelper(fn string) bool {
+	for _, p := range []string{"runtime.", "slices.", "maps.", "sort.", "strings.", "bytes.", "unicode/utf8.", "internal/bytealg."} {
+		if strings.HasPrefix(fn, p) {
+			return true
+		}
+	}
+	return false
 }
 
 func cleanFn(fn string) string {
@@ -480,6 +492,8 @@ func c16Scenarios(tier string) []schedx.Scenario {
 			c16Scenario("S4 CA file: callback||nocookie", c16Opts{CAFile: true}, []string{"callback", "nocookie"}, b),
 			c16Scenario("S5 jwks fetcher first use: callback||callback", c16Opts{JWKSFetch: true}, []string{"callback", "callback"}, b),
 			c16Scenario("S7 proxy: callback||refresh", c16Opts{Proxy: true}, []string{"callback", "refresh"}, b),
+			c16Scenario("S6 redis: callback||callback", c16Opts{Redis: true, Logout: true}, []string{"callback", "callback"}, b),
+			c16Scenario("S6 redis: callback||refresh", c16Opts{Redis: true, Logout: true}, []string{"callback", "refresh"}, b),
 		}
 	}
 	scs := mk(1) // function-entry + lock points, one pre-emption
